@@ -1,5 +1,5 @@
 \* the reader on every text of length <= 6 over {a , " ' CR LF} with each quote configuration
-CONSTANTS NSheets = 1 MaxR = 1 MaxC = 1 MaxCells = 0 FreeLen = 6 Escape = TRUE Record = FALSE
+CONSTANTS NSheets = 1 MaxR = 1 MaxC = 1 MaxCells = 0 FreeLen = 6 Escape = TRUE Overwrite = FALSE Record = FALSE
 CONSTANTS Values <- SmallValues FreeAlphabet <- FreeChars
 SPECIFICATION Spec
 INVARIANTS TypeOK FoldAgrees NoQuoteClean ReaderBounded
